@@ -113,6 +113,14 @@ def rule_window(ctx):
     pr = env2.get("self.pc1_proj")
     base = pr.value if isinstance(pr, ast.Subscript) else pr
     ok_pr = base is not None and norm(base).replace(" ", "") in ("np.dot(%s-self.y_mean,self.pc1)" % f.params[1],)
+    if not ok_pr and base is not None:
+        # the same comparison with every attribute written out (the mean and the axis held in locals before they are stored)
+        env3 = straight_env(f.node, stop=(wn, vn, "self.s_o"))
+        pr3 = env3.get("self.pc1_proj")
+        base3 = pr3.value if isinstance(pr3, ast.Subscript) else pr3
+        ym3, pc3 = env3.get("self.y_mean"), env3.get("self.pc1")
+        if base3 is not None and ym3 is not None and pc3 is not None:
+            ok_pr = norm(base3).replace(" ", "") == ("np.dot(%s-%s,%s)" % (f.params[1], norm(ym3), norm(pc3))).replace(" ", "")
     h = ctx.func(BM, "BMCI.__find_hits")
     hflow = Flow(h)
     yo, x2 = h.params[1], h.params[2]
@@ -407,28 +415,60 @@ def rule_weights(ctx):
            "inverse of the covariance passed to the constructor", node=inv or g.node, func=g)
 
 
+def _weights_modes(ctx, w, wflow, x2, got, facts):
+    okw = got[True] == ("0", "self.n", "self.y")
+    il, iu = got[False][0], got[False][1]
+    fh = [st for st in wflow.stmts if isinstance(st, ast.Assign) and calls_in(st.value, ("__find_hits", "_BMCI__find_hits")) and isinstance(st.targets[0], ast.Tuple)]
+    from_hits = bool(fh) and [norm(e_) for e_ in fh[0].targets[0].elts[:2]] == [il, iu]
+    if not from_hits and il.endswith("[0]") and iu.endswith("[1]") and il[:-3] == iu[:-3] and il.startswith(("self.__find_hits(", "self._BMCI__find_hits(")):
+        from_hits = True
+    okw = okw and got[False][2] == ("self.y[%s:%s,:]" % (il, iu)).replace(" ", "") and from_hits
+    ctx.ob("BMCI.weights.bounds", okw, "returns %s" % facts, "(0, n, weights of all of self.y) or (i_l, i_u, weights of self.y[i_l:i_u, :]) with the bounds of __find_hits", node=w.node, func=w)
+    # guard x2_max < 0 selects the unrestricted mode (decided above: the two modes are told apart by exactly that test)
+    g = [st for st in wflow.stmts if isinstance(st, ast.If) and any(isinstance(n_, ast.Name) and n_.id == x2 for n_ in ast.walk(st.test))]
+    tests = [norm(st.test).replace(" ", "") for st in g]
+    okg = bool(g) and all(t_ in ("%s<0.0" % x2, "%s<0" % x2, "%s>=0.0" % x2, "%s>=0" % x2, "0.0>%s" % x2, "0>%s" % x2, "not%s<0.0" % x2, "not%s>=0.0" % x2) for t_ in tests)
+    ctx.ob("BMCI.weights.mode", bool(okg), "mode decided by: %s" % tests, "x2_max < 0 -> all entries; x2_max >= 0 -> window", node=g[0] if g else w.node, func=w)
+
+
 def rule_slice(ctx):
     ctx.rule("C18.slice", "T6+T4", "weights and x use the same window bounds; the x-sorted mask is i_l <= k < i_u shifted by -i_l")
     w = ctx.func(BM, "BMCI.weights")
     # unrestricted mode returns (0, n); restricted slices y with the same bounds it returns
     rets = [s for s in walk_no_nested(w.node) if isinstance(s, ast.Return)]
-    okw = False
+    wflow = Flow(w)
+    x2 = w.params[2] if len(w.params) > 2 else "x2_max"
     facts = []
-    for r in rets:
-        facts.append(norm(r.value))
-    unres = [r for r in rets if norm(r.value).replace(" ", "").startswith("(0,self.n,")]
-    res = [r for r in rets if r not in unres]
-    okw = len(unres) == 1 and len(res) == 1
-    if okw:
-        il, iu = [norm(e) for e in res[0].value.elts[:2]]
-        gp = calls_in(w.node, "__gauss_prob") + calls_in(w.node, "_BMCI__gauss_prob")
-        sl = [norm(c.args[1]).replace(" ", "") for c in gp]
-        okw = "self.y[%s:%s,:]" % (il, iu) in sl and "self.y" in sl
-    ctx.ob("BMCI.weights.bounds", okw, "returns %s" % facts, "(0, n, weights of all of self.y) or (i_l, i_u, weights of self.y[i_l:i_u, :])", node=w.node, func=w)
-    # guard x2_max < 0 selects the unrestricted mode
-    g = [st for st in w.body if isinstance(st, ast.If)]
-    okg = bool(g) and norm(g[0].test).replace(" ", "") in ("x2_max<0.0", "x2_max<0") and unres and unres[0] in list(ast.walk(g[0]))and any(unres[0] is s for s in g[0].body)
-    ctx.ob("BMCI.weights.mode", bool(okg), "if %s: unrestricted" % (norm(g[0].test) if g else None), "x2_max < 0 -> all entries; x2_max >= 0 -> window", node=g[0] if g else w.node, func=w)
+    got = {}
+    for mode in (True, False):
+        asm = {"%s < 0.0" % x2: mode, "%s < 0" % x2: mode, "%s >= 0.0" % x2: not mode, "%s >= 0" % x2: not mode, "0.0 > %s" % x2: mode, "0 > %s" % x2: mode}
+        live = [r for r in rets if wflow.live_under(r, asm)]
+        # an answer remembered from an earlier call (an attribute of self handed back): the window depends on x2_max, so the
+        # condition under which it is handed back has to look at x2_max
+        from ..flow import guard_chain as _gc
+        memo = [r for r in live if isinstance(r.value, ast.Attribute) and norm(r.value).startswith("self.")]
+        blind = [r for r in memo if not any(isinstance(n_, ast.Name) and n_.id == x2 for t_, _p in _gc(r, implicit=False)
+                                            for n_ in ast.walk(wflow.resolve(t_, at=r, stop=(x2,))))]
+        if blind:
+            ctx.ob("BMCI.weights.bounds", False, "return %s under %s" % (norm(blind[0].value), [norm(t_)[:70] for t_, _p in _gc(blind[0], implicit=False)]),
+                   "weights and bounds computed for THIS call's x2_max: a remembered answer that is handed back without comparing x2_max belongs to another window",
+                   node=blind[0], func=w)
+            ctx.ob("BMCI.weights.mode", False, "a remembered answer bypasses the mode decision", "x2_max < 0 -> all entries; x2_max >= 0 -> window", node=blind[0], func=w)
+            break
+        if len(live) != 1 or not isinstance(live[0].value, ast.Tuple) or len(live[0].value.elts) != 3:
+            raise AnalysisError("weights: expected one `return i_l, i_u, ws` for x2_max %s 0, found %s" % ("<" if mode else ">=", [norm(r.value) for r in live]))
+        r = live[0]
+        lo = wflow.resolve_under(r.value.elts[0], asm, at=r, depth=3)
+        hi = wflow.resolve_under(r.value.elts[1], asm, at=r, depth=3)
+        wv = wflow.resolve_under(r.value.elts[2], asm, at=r, depth=4)
+        gp = [c for c in ast.walk(wv) if isinstance(c, ast.Call) and isinstance(c.func, ast.Attribute) and c.func.attr in ("__gauss_prob", "_BMCI__gauss_prob")]
+        if len(gp) != 1 or len(gp[0].args) < 2:
+            raise AnalysisError("weights: the returned weights %s are not one call of __gauss_prob" % norm(wv)[:60])
+        ydb = norm(wflow.resolve_under(gp[0].args[1], asm, at=r, depth=4)).replace(" ", "")
+        got[mode] = (str(norm(lo)), str(norm(hi)), ydb)
+        facts.append("x2_max %s 0: (%s, %s, weights of %s)" % ("<" if mode else ">=", norm(lo), norm(hi), ydb))
+    if len(got) == 2:
+        _weights_modes(ctx, w, wflow, x2, got, facts)
     p = ctx.func(BM, "BMCI.predict")
     uses = set(norm(n) for n in walk_no_nested(p.node) if isinstance(n, ast.Subscript) and norm(n.value) == "self.x")
     ctx.ob("BMCI.predict.slice", uses == {"self.x[i_l:i_u]"}, "subscripts of self.x in predict: %s" % sorted(uses),
@@ -527,6 +567,20 @@ def rule_nan(ctx):
         zero_arm = gi[0][1][1]
         vals = {norm(s.targets[0]): norm(s.value) for s in zero_arm if isinstance(s, ast.Assign)}
         okp = set(vals) == {"xs[i]", "sigmas[i]"} and all(_is_nan(v) for v in vals.values())
+        if not okp and not vals:
+            # nothing assigned for a zero weight: the outputs were allocated full of NaN and are written under a positive weight only
+            pre = {}
+            for s_ in walk_no_nested(p.node):
+                if isinstance(s_, ast.Assign) and isinstance(s_.targets[0], ast.Name) and isinstance(s_.value, ast.Call) \
+                        and (dotted(s_.value.func) or "").split(".")[-1] == "full" and len(s_.value.args) >= 2 and _is_nan(norm(s_.value.args[1])):
+                    pre[s_.targets[0].id] = norm(s_.value)
+            wr = [s_ for s_ in gi[0][1][0] if isinstance(s_, ast.Assign) and isinstance(s_.targets[0], ast.Subscript)]
+            outs = {norm(s_.targets[0].value) for s_ in wr}
+            others = [s_ for s_ in walk_no_nested(p.node) if isinstance(s_, ast.Assign) and isinstance(s_.targets[0], ast.Subscript)
+                      and norm(s_.targets[0].value) in outs and not any(s_ is w_ for w_ in wr)]
+            if len(outs) == 2 and outs <= set(pre) and not others:
+                okp = True
+                vals = {"%s[i]" % o_: "%s (pre-filled)" % pre[o_] for o_ in sorted(outs)}
     gi = [g_[0] for g_ in gi]
     ctx.ob("BMCI.predict.fallback", okp, "else-branch of the weight test: %s" % (vals if gi else None), "xs[i] and sigmas[i] become NaN when the total weight is 0 (sum of an empty window is 0.0: total)",
            node=gi[0] if gi else p.node, func=p)
@@ -545,6 +599,29 @@ def rule_nan(ctx):
             # NaN in the else branch
             nanv = [norm(s.value) for s in gi[0].orelse if isinstance(s, ast.Assign)]
             ok = ok and bool(nanv) and all(_is_nan(v) for v in nanv)
+            if not ok:
+                # any other spelling: the test is evaluated for an empty window (the last element does not exist there), a window of
+                # total weight 0 and one of positive weight; the arm that yields NaN must be taken in exactly the first two cases
+                def has_nan(arm):
+                    return any(_is_nan(norm(x)) for st_ in arm for x in ast.walk(st_) if isinstance(x, (ast.Call, ast.Attribute)))
+                nan_in_body, nan_in_else = has_nan(gi[0].body), has_nan(gi[0].orelse)
+                if nan_in_body != nan_in_else:
+                    from ..order import Interp
+                    verdicts = []
+                    for size_, last_ in ((0, None), (2, 0), (2, 1)):
+                        env_ = {"ws_cum.size": size_, "len(ws_cum)": size_, "ws_cum.shape[0]": size_, "ws.size": size_, "len(ws)": size_}
+                        if last_ is not None:
+                            env_["ws_cum[-1]"] = last_
+                        try:
+                            v_ = bool(Interp(env_).ev(gi[0].test))
+                        except AnalysisError as e_:
+                            if last_ is None and "ws_cum" in str(e_):
+                                v_ = None       # the last element of an empty window is evaluated
+                            else:
+                                raise AnalysisError("%s: the test %s in front of the normalisation is outside the model: %s" % (fname, fact, e_))
+                        verdicts.append(v_)
+                    want = [nan_in_body, nan_in_body, not nan_in_body]
+                    ok = verdicts == want
         else:
             # alternative: test on the sum of weights (total on empty arrays)
             gi2 = [st for st in walk_no_nested(f.node) if isinstance(st, ast.If) and ("ws.sum()" in norm(st.test) or "np.sum(ws)" in norm(st.test))]
